@@ -111,6 +111,7 @@ var Snippets = []Snippet{
 	{[]string{"A", "B"}, "func st${N}() {\n\t_ = ${A}F(${A}V)\n\t_ = ${B}F2()\n\t_ = ${A}T{X: ${A}C}\n}"},
 	{[]string{"C", "E"}, "func st${N}() {\n\t_ = ${C}Do(${C}One)\n\t${E}Bar()\n}"},
 	{[]string{"D", "F"}, "func st${N}() {\n\t_ = ${D}DotObj.A\n\t_ = ${F}Baz() + ${D}DotF()\n}"},
+	{nil, "func shadowLocal${N}(Exported int) int {\n\tHelper := Exported + 1\n\ttype LocalT struct{ Q int }\n\treturn LocalT{Q: Helper}.Q\n}"},
 	{nil, "func useLocal${N}() int {\n\tv := LocalT{N: Exported}\n\treturn Helper() + v.N\n}"},
 	{[]string{"A"}, "func shadow${N}() int {\n\tV := struct{ F int }{F: 1}\n\treturn V.F + ${A}C\n}"},
 }
